@@ -3,7 +3,7 @@ from props import codec
 
 
 def jobs(tier):
-    return codec.codec_jobs(tier, want=('layout', 'roundtrip', 'writer', 'reader'))
+    return codec.codec_jobs(tier, want=('layout', 'roundtrip', 'writer', 'reader')) + codec.flat_jobs(tier)
 
 
 def meta(tier):
